@@ -675,14 +675,43 @@ func (s *State) StoreLoc(l Loc, v Value) {
 	}
 }
 
+// An array stored by value inside an object (a field of array type, `h [15]byte`) keeps its content in the field's own
+// heap component (key "<type>.<field>", indexed by the object reference). A slice or element pointer into it carries the
+// array reference embArr(fieldKey, object): every access to "the array of a slice" is redirected to that component, so
+// reads and writes through the slice and through the field see the same memory.
+func embArr(fieldKey string, obj *Term) *Term { return App("emb:"+fieldKey, SInt, obj) }
+
+func embOf(arr *Term) (string, *Term, bool) {
+	if arr != nil && arr.Op == "app" && strings.HasPrefix(arr.Name, "emb:") {
+		return strings.TrimPrefix(arr.Name, "emb:"), arr.Args[0], true
+	}
+	if arr != nil && arr.Op == "ite" {
+		for _, a := range arr.Args[1:] {
+			if _, _, ok := embOf(a); ok {
+				panic(unsupported("a slice that is conditionally a view of an array field"))
+			}
+		}
+	}
+	return "", nil, false
+}
+
 // array content access (whole inner array of one component)
 func (s *State) arrayOf(elem types.Type, c comp, arr *Term) *Term {
+	if k, obj, ok := embOf(arr); ok {
+		return Select(s.heap(k+c.suffix, ArrSort(SInt, ArrSort(BV(64), c.sort))), obj)
+	}
 	key := elemKey(elem) + c.suffix
 	h := s.heap(key, ArrSort(SInt, ArrSort(BV(64), c.sort)))
 	return Select(h, arr)
 }
 
 func (s *State) setArrayOf(elem types.Type, c comp, arr *Term, content *Term) {
+	if k, obj, ok := embOf(arr); ok {
+		key := k + c.suffix
+		s.heaps[key] = Store(s.heap(key, ArrSort(SInt, ArrSort(BV(64), c.sort))), obj, content)
+		s.written[key] = true
+		return
+	}
 	key := elemKey(elem) + c.suffix
 	h := s.heap(key, ArrSort(SInt, ArrSort(BV(64), c.sort)))
 	s.heaps[key] = Store(h, arr, content)
